@@ -124,3 +124,8 @@ func lemma_precedence_table() (or, and, re, nre, eq, ne, lt, gt, le, ge, plus, s
 //@   callassert [prefix-binds-tightest C02] ParseExpression: arg1 == PREFIX
 //@ func (*Parser).ParseGroupedExpression [C02]
 //@   callassert [parentheses-override C02] ParseExpression: arg1 == LOWEST
+
+// The climbing loop hands the left operand to an infix/postfix parser only for an operator that binds
+// tighter than the context it was called with (so equal precedence groups to the left).
+//@ func (*Parser).ParseExpression [C02]
+//@   callassert? [climbs-only-to-tighter-operators C02] <dynamic>: nonnil(arg0) ==> precedence < p.curPrecedence()
